@@ -40,6 +40,7 @@ type Plan struct {
 	Pos    int    `json:"pos,omitempty"`
 	Twice  bool   `json:"twice,omitempty"`  // finalise the same data twice
 	Share  bool   `json:"share,omitempty"`  // the same blind scalar object is used for two inputs
+	Same   bool   `json:"same,omitempty"`   // the second input of the batch equals the first (with Share: one blinded element twice)
 	Choice int    `json:"choice,omitempty"` // ot
 	MLen   int    `json:"mlen,omitempty"`
 }
@@ -65,6 +66,7 @@ func gen(r *core.PRNG, tier string) any {
 		p.Fault = oprfFaults[r.Intn(len(oprfFaults))]
 		p.Twice = r.Chance(1, 4)
 		p.Share = r.Chance(1, 6)
+		p.Same = r.Chance(1, 3) && (p.Share || r.Chance(1, 3))
 	case 1:
 		p.Kind = "dleq"
 		for i, n := 0, r.Range(1, 4); i < n; i++ {
@@ -92,6 +94,8 @@ func directed(tier string) []any {
 		for m := 0; m < 3; m++ {
 			for _, f := range oprfFaults[1:] {
 				out = append(out, &Plan{Kind: "oprf", Seed: uint64(s*10 + m), Suite: s, Mode: m, Batch: []int{3, 0, 17}, Info: 4, Fault: f, Pos: 9, Twice: true})
+				// a batch that carries one blinded element twice; the fault lands on the second occurrence
+				out = append(out, &Plan{Kind: "oprf", Seed: uint64(s*10 + m + 100), Suite: s, Mode: m, Batch: []int{5, 5, 9}, Info: 4, Fault: f, Pos: 10, Share: true, Same: true})
 			}
 		}
 		for _, f := range dleqFaults {
@@ -160,6 +164,10 @@ func execOPRF(p *Plan, run *core.Run) {
 			return
 		}
 		inputs = append(inputs, data.Bytes(l))
+	}
+	if p.Same && len(inputs) > 1 {
+		inputs[1] = append([]byte{}, inputs[0]...)
+		run.Fault("history:same-input-twice-in-one-batch")
 	}
 	info := data.Bytes(p.Info)
 	// an empty info string is an empty info string, whether the caller spells it nil or []byte{}
@@ -963,7 +971,7 @@ func main() {
 	core.Main(&core.Property{
 		ID:    "C16",
 		Level: "exploration",
-		Rule: "seeded plans: OPRF (4 suites x 3 modes x derived keys x batches of 1..5 inputs of lengths 0..70 x info x blinds from the entropy device) with one transport fault {evaluated element replaced / bit-flipped / identity / two entries swapped, proof c or s altered, another public key, altered info, blinded element altered on the way to the server} and history faults (finalise twice, one blind object for two inputs); zk/dleq single and batch, zk/dl, zk/qndleq with every single-component alteration and degenerate-field faults (zero c/s, identity elements, SecParam=0 with C=0); simot three rounds for both choices and the attempt to open the other ciphertext; directed: every suite x mode x fault; " +
+		Rule: "seeded plans: OPRF (4 suites x 3 modes x derived keys x batches of 1..5 inputs of lengths 0..70 x info x blinds from the entropy device) with one transport fault {evaluated element replaced / bit-flipped / identity / two entries swapped, proof c or s altered, another public key, altered info, blinded element altered on the way to the server} and history faults (finalise twice, one blind object for two inputs, one input twice in a batch - with the shared blind: one blinded element twice); zk/dleq single and batch, zk/dl, zk/qndleq with every single-component alteration and degenerate-field faults (zero c/s, identity elements, SecParam=0 with C=0); simot three rounds for both choices and the attempt to open the other ciphertext; directed: every suite x mode x fault; " +
 			"non-trivial = a fault fired; distinct = distinct abstract trace",
 		Assumptions: []string{
 			"byte-equality with the RFC 9497 vectors is a pure-function clause left to the repository's own vector test",
